@@ -178,6 +178,18 @@ def run(tier):
                         instance='fixed data (%s kHz class): channel used = channel whose mask bit was tested, class from bandwidth(datarates()[dr])' % cls)
     res.require(n_join == 2 and n_first == 1 and n_masked == 2, 'C09:fix::select_tx_channel:arms', 'expected join, biased-data, first-data and two masked arms, found join=%d first=%d masked=%d' % (n_join, n_first, n_masked),
                 bf.body.path, 'SHAPE', instance='fixed select_tx_channel: 2 join-channel arms, first-data arm, 2 masked arms')
+    # the unmasked arms (join bias, first data channel) are only live until a channel mask is installed: every
+    # store to FixedChannelPlan.channel_mask is preceded by JoinChannels::reset() in the same function
+    n_ms = 0
+    for body_, bb_, si_, st_ in c04.stores_through(prog, 'FixedChannelPlan', 'channel_mask'):
+        n_ms += 1
+        bfs = c.pf.bf(body_)
+        resets = [b2 for b2, t2 in bfs.calls() if callee_name(t2).endswith('JoinChannels::reset')]
+        res.require(any(bfs.cfg.dominates(rb, bb_) for rb in resets), 'C09:%s:mask-installed-without-bias-reset' % c04.short(body_.path),
+                    'a channel mask is installed without resetting the join bias: data frames keep using the biased sub-band channels without looking at the mask',
+                    short_site(bfs, bb_, si_), 'DOM(JoinChannels::reset => store channel_mask)', instance='%s: join bias reset before the mask is installed' % c04.short(body_.path))
+    if n_ms < 1:
+        raise CheckError('floor: stores to FixedChannelPlan.channel_mask %d < 1' % n_ms)
     # the class predicate constant is 500 kHz
     # ------------------------------------------------------------------ tables
     regs = tables.regions(prog)
